@@ -184,6 +184,12 @@ def run(run):
         for ck in gen(run, E):
             fails += ck.failed
     finish_engine(E, run)
+    # callee contract: boot_noise_ceiling's folds come from sets_leave_one_out_rdm (contract generated by C05, discharged here too)
+    from contracts import C05
+    E5 = new_engine(run)
+    for ck in C05.check_leave_one_out(run, E5, pid='C07'):
+        fails += ck.failed
+    finish_engine(E5, run)
     lean_lemmas(run)
     bds = []
     try:
